@@ -4,7 +4,7 @@
 //! are NOT computed here: `specs/ops/Trace_Onnx.tla` evaluates `OnnxOps.OnnxEval` on the logged
 //! inputs and compares.
 //!
-//! `vh-ops onnxref --out trace.ndjson [--ops A,B,..] [--per N] [--first-id N] [--only-case '<case json>'] [--list]`
+//! `vh-ops onnxref --out trace.ndjson [--ops A,B,..] [--per N] [--grid N] [--first-id N] [--only-case '<case json>'] [--list]`
 //!
 //! Trace records (fixed field sets):
 //!  {"ev":"case","id","op","tag","attrs":{name:[]|[v]},"ins":[{"p","shape","dtype","ot","data","init"}],"nout","vshape"}
@@ -130,6 +130,42 @@ impl T {
             Dt::U8 => Tensor::from_data(sh, self.data.iter().map(|v| *v as u8).collect::<Vec<_>>()).into(),
         }
     }
+    /// The same logical tensor stored column-major (strides[i] = prod(shape[..i])): a non-contiguous
+    /// input, which reaches the operators' strided / scalar code paths.
+    fn to_value_colmajor(&self) -> Value {
+        let rank = self.shape.len();
+        let mut strides = vec![1usize; rank];
+        for i in 1..rank {
+            strides[i] = strides[i - 1] * self.shape[i - 1];
+        }
+        let n = self.data.len();
+        let mut perm = vec![0usize; n]; // storage offset of row-major position p
+        let mut idx = vec![0usize; rank];
+        for p in 0..n {
+            perm[p] = idx.iter().zip(&strides).map(|(i, s)| i * s).sum();
+            for d in (0..rank).rev() {
+                idx[d] += 1;
+                if idx[d] < self.shape[d] {
+                    break;
+                }
+                idx[d] = 0;
+            }
+        }
+        fn build<X: Copy + Default>(shape: &[usize], strides: &[usize], perm: &[usize], vals: Vec<X>) -> Tensor<X> {
+            let mut store = vec![X::default(); vals.len()];
+            for (p, v) in vals.into_iter().enumerate() {
+                store[perm[p]] = v;
+            }
+            Tensor::from_data_with_strides(shape, store, strides).expect("column-major layout")
+        }
+        let (sh, st) = (self.shape.as_slice(), strides.as_slice());
+        match self.dt {
+            Dt::F32 => build(sh, st, &perm, self.data.iter().map(|v| *v as f32 / self.den as f32).collect()).into(),
+            Dt::I32 => build(sh, st, &perm, self.data.iter().map(|v| *v as i32).collect()).into(),
+            Dt::I8 => build(sh, st, &perm, self.data.iter().map(|v| *v as i8).collect()).into(),
+            Dt::U8 => build(sh, st, &perm, self.data.iter().map(|v| *v as u8).collect()).into(),
+        }
+    }
     /// As an ONNX TensorProto (initializer / tensor attribute) of element type `ot`.
     fn to_onnx(&self, name: &str) -> onnx::Tensor {
         let d = &self.data;
@@ -184,6 +220,8 @@ pub struct Case {
     pub nout: usize,
     /// declare fixed input shapes in the graph's ValueInfo
     pub vshape: bool,
+    /// feed input 0 as a non-contiguous (column-major) tensor
+    pub view: bool,
 }
 
 impl Case {
@@ -197,6 +235,7 @@ impl Case {
             init: vec![],
             nout: 1,
             vshape: false,
+            view: false,
         }
     }
     fn input(mut self, t: T) -> Case {
@@ -269,7 +308,7 @@ impl Case {
             })
             .collect();
         json!({"ev": "case", "id": id, "op": self.op, "tag": self.tag, "combo": self.combo, "attrs": J::Object(attrs), "akinds": kinds,
-               "ins": ins, "nout": self.nout, "vshape": self.vshape})
+               "ins": ins, "nout": self.nout, "vshape": self.vshape, "view": self.view})
     }
 
     fn from_json(j: &J) -> Case {
@@ -278,6 +317,7 @@ impl Case {
         c.combo = j["combo"].as_str().unwrap_or("").to_string();
         c.nout = j["nout"].as_u64().unwrap() as usize;
         c.vshape = j["vshape"].as_bool().unwrap_or(false);
+        c.view = j["view"].as_bool().unwrap_or(false);
         for k in j["akinds"].as_array().unwrap() {
             let name = k[0].as_str().unwrap();
             let v = &j["attrs"][name];
@@ -430,7 +470,8 @@ fn run_case(c: &Case) -> J {
                 continue;
             }
             let id = model.node_id(&format!("i{k}")).map_err(|e| e.to_string())?;
-            inputs.push((id, t.to_value().into()));
+            let v = if k == 0 && c.view { t.to_value_colmajor() } else { t.to_value() };
+            inputs.push((id, v.into()));
         }
         let mut outs = Vec::new();
         for k in 0..c.nout {
@@ -539,7 +580,7 @@ pub const OPS: &[&str] = &[
     "GlobalAveragePool", "Resize", "CastLike", "Scatter", "Ceil", "Floor", "Round", "IsInf", "IsNaN", "PRelu",
     "LeakyRelu", "ReverseSequence", "DequantizeLinear", "QuantizeLinear", "Einsum",
     "SequenceConstruct", "SequenceAt", "SequenceLength", "SequenceInsert", "SequenceErase", "ConcatFromSequence",
-    "SplitToSequence", "Dropout",
+    "SplitToSequence", "Dropout", "DynamicQuantizeLinear",
 ];
 
 fn gen_case(op: &str, r: &mut Rng) -> Case {
@@ -649,7 +690,25 @@ fn gen_case(op: &str, r: &mut Rng) -> Case {
             let to = *r.pick(&[onnx::FLOAT, onnx::UINT8, onnx::INT8, onnx::INT32, onnx::INT64, onnx::BOOL, onnx::DOUBLE, 10]);
             let s = dims(r, 0, 4, 4, true);
             let (lo, hi) = if r.chance(1, 6) { (-200, 300) } else if r.chance(1, 2) { (0, 100) } else { (-100, 100) };
-            c.input(tensor(r, &s, dt, lo, hi)).int("to", Some(to as i64)).tag(format!("{}->{}", dt.name(), to))
+            let is_int_target = matches!(to, onnx::UINT8 | onnx::INT8 | onnx::INT32 | onnx::INT64 | onnx::BOOL);
+            if dt == Dt::F32 && is_int_target && r.chance(2, 3) {
+                // fractional floats (halves / quarters, both signs) incl. values next to the target range ends
+                let den = *r.pick(&[2i64, 4]);
+                let mut x = tensor(r, &s, dt, -40 * den, 60 * den);
+                let (tlo, thi) = match to {
+                    onnx::UINT8 => (0, 255),
+                    onnx::INT8 => (-128, 127),
+                    _ => (-1000, 1000),
+                };
+                for v in x.data.iter_mut() {
+                    if r.chance(1, 4) {
+                        *v = *r.pick(&[tlo * den, tlo * den + 1, tlo * den - 1, thi * den, thi * den + den - 1, thi * den - 1, 1, -1, den - 1, 1 - den]);
+                    }
+                }
+                c.input(x.den(den)).int("to", Some(to as i64)).tag(format!("f32(fractional)->{}", to))
+            } else {
+                c.input(tensor(r, &s, dt, lo, hi)).int("to", Some(to as i64)).tag(format!("{}->{}", dt.name(), to))
+            }
         }
         "Shape" => {
             let dt = any_dt(r);
@@ -1339,27 +1398,30 @@ fn gen_case(op: &str, r: &mut Rng) -> Case {
         }
         "MaxPool" | "AveragePool" => {
             let nsp = *r.pick(&[1usize, 1, 2, 2, 2, 2, 2, 2, 2, 3]);
-            let ks: Vec<usize> = (0..nsp).map(|_| r.range(1, 3) as usize).collect();
-            let strides: Vec<i64> = (0..nsp).map(|_| *r.pick(&[1i64, 1, 2, 3])).collect();
-            let ins: Vec<usize> = (0..nsp).map(|i| r.range(ks[i] as i64, 5) as usize).collect();
+            // attributes are drawn uniformly (no dominating "common" value); the full cross product over a
+            // small size grid is covered by grid_case
+            let kmax = if op == "AveragePool" { 3 } else { 4 }; // (window counts must divide the data multiplier)
+            let ks: Vec<usize> = (0..nsp).map(|_| r.range(1, kmax) as usize).collect();
+            let strides: Vec<i64> = (0..nsp).map(|_| r.range(1, 3)).collect();
+            let ins: Vec<usize> = (0..nsp).map(|i| r.range((ks[i] as i64 - 2).max(1), 8) as usize).collect();
             let auto = *r.pick(&["", "", "", "NOTSET", "VALID", "SAME_UPPER", "SAME_LOWER"]);
             let explicit_pads = auto.is_empty() || auto == "NOTSET";
-            let pads: Option<Vec<i64>> = if explicit_pads && r.chance(2, 3) {
+            let pads: Option<Vec<i64>> = if explicit_pads && r.chance(4, 5) {
                 Some((0..2 * nsp).map(|i| r.range(0, ks[i % nsp] as i64 - 1)).collect())
             } else {
                 None
             };
             // (rten rejects pooling models that omit `strides`; dilations other than 1 are rejected at load)
             let has_strides = r.chance(9, 10);
-            let ceil = if r.chance(1, 2) { Some(r.range(0, 1)) } else { None };
+            let ceil = *r.pick(&[None, Some(0), Some(0), Some(1), Some(1)]);
             let dil: Option<Vec<i64>> = if r.chance(1, 8) { Some((0..nsp).map(|_| *r.pick(&[1i64, 1, 2])).collect()) } else { None };
             let xs = [vec![r.range(1, 2) as usize, r.range(1, 2) as usize], ins].concat();
             let mut x = tensor(r, &xs, Dt::F32, -9, 9);
             let mut c = c;
             let mut extra = String::new();
             if op == "AveragePool" {
-                x.data.iter_mut().for_each(|v| *v *= 2520);
-                let cip = if r.chance(1, 2) { Some(r.range(0, 1)) } else { None };
+                x.data.iter_mut().for_each(|v| *v *= 5040);
+                let cip = *r.pick(&[None, Some(0), Some(0), Some(1), Some(1)]);
                 c = c.int("count_include_pad", cip);
                 extra = format!(",count_include_pad={}", b2s(cip));
             }
@@ -1455,7 +1517,12 @@ fn gen_case(op: &str, r: &mut Rng) -> Case {
         }
         "Ceil" | "Floor" | "Round" | "IsInf" | "IsNaN" => {
             let s = dims(r, 0, 4, 4, true);
-            c.input(tensor(r, &s, Dt::F32, -9, 9)).tag("f32".into())
+            if matches!(op, "Ceil" | "Floor" | "Round") && r.chance(3, 4) {
+                // halves: k + 1/2 for even / odd / negative k (the ties of round-half-even) and integers
+                c.input(tensor(r, &s, Dt::F32, -13, 13).den(2)).tag("f32,halves".into())
+            } else {
+                c.input(tensor(r, &s, Dt::F32, -9, 9)).tag("f32".into())
+            }
         }
         "PRelu" => {
             let s = dims(r, 0, 4, 4, true);
@@ -1497,19 +1564,92 @@ fn gen_case(op: &str, r: &mut Rng) -> Case {
             c.input(tensor(r, &s, dt, -20, 20)).input(tensor(r, &ps, Dt::F32, 1, 4)).opt_input(zp).int("axis", axis).tag(t)
         }
         "QuantizeLinear" => {
+            // value pool aimed at the rounding / saturation points: exact ties x/scale = k + 1/2 (k even,
+            // odd, negative), zero points of both parities and types, values that land on and next to
+            // the ends of the output range, per-tensor and per-axis scales (powers of two: exact)
             let zdt = *r.pick(&[Dt::U8, Dt::I8]);
             let s = dims(r, 0, 4, 4, true);
-            let per_axis = !s.is_empty() && r.chance(1, 3);
+            let per_axis = !s.is_empty() && r.chance(2, 5);
             let ax = r.below(s.len().max(1));
             let ps: Vec<usize> = if per_axis { vec![s[ax]] } else if r.chance(1, 2) { vec![] } else { vec![1] };
-            let zp = r.chance(2, 3).then(|| tensor(r, &ps, zdt, -5, 9));
+            // (rten rejects QuantizeLinear without y_zero_point with an error: exercised rarely)
+            let zp = r.chance(7, 8).then(|| tensor(r, &ps, zdt, -5, 9));
             let axis = if per_axis { if ax == 1 && r.chance(1, 2) { None } else { Some(maybe_neg(r, ax as i64, s.len())) } } else { None };
             let mut sc = tensor(r, &ps, Dt::F32, 0, 2);
             sc.data.iter_mut().for_each(|v| *v = 1 << *v); // 1, 2, 4
-            let (lo, hi) = if r.chance(1, 4) { (-600, 600) } else { (-40, 40) };
-            let t = format!("zp={},per_axis={per_axis}", zp.as_ref().map(|z| z.dt.name()).unwrap_or("none"));
+            let den = *r.pick(&[1i64, 2, 2]);
+            let (qlo, qhi) = match zp.as_ref().map(|z| z.dt) {
+                Some(Dt::I8) => (-128i64, 127i64),
+                _ => (0, 255),
+            };
+            let n = numel(&s);
+            let inner: usize = if s.is_empty() { 1 } else { s[ax + 1..].iter().product() };
+            let mut data = Vec::with_capacity(n);
+            for p in 0..n {
+                let ch = if per_axis { (p / inner) % s[ax] } else { 0 };
+                let scale = sc.data[if sc.data.len() > 1 { ch } else { 0 }];
+                let z = zp.as_ref().map(|z| z.data[if z.data.len() > 1 { ch } else { 0 }]).unwrap_or(0);
+                // numerator of x over `den`
+                let v = match r.below(10) {
+                    0..=4 => {
+                        // tie: x = scale * (k + 1/2)  =>  numerator den*scale*(2k+1)/2 (needs den*scale even)
+                        let k = r.range(-9, 9);
+                        if (den * scale) % 2 == 0 { den * scale / 2 * (2 * k + 1) } else { den * scale * k }
+                    }
+                    5 | 6 => {
+                        // on / next to the ends of the output range (before and after adding the zero point)
+                        let q = *r.pick(&[qlo - 2, qlo - 1, qlo, qlo + 1, qhi - 1, qhi, qhi + 1, qhi + 2]);
+                        let half = if (den * scale) % 2 == 0 && r.chance(1, 2) { den * scale / 2 } else { 0 };
+                        (q - z) * scale * den + half
+                    }
+                    7 => r.range(-600, 600) * den,
+                    _ => r.range(-40 * den, 40 * den),
+                };
+                data.push(v);
+            }
+            let x = T::new(s.clone(), Dt::F32, data).den(den);
+            let t = format!("zp={},per_axis={per_axis},den={den}", zp.as_ref().map(|z| z.dt.name()).unwrap_or("none"));
             let tg = if per_axis && axis.is_none() && s.len() > 2 { "per_axis,default_axis_is_not_last_axis" } else if per_axis { "per_axis" } else { "per_tensor" };
-            c.input(tensor(r, &s, Dt::F32, lo, hi)).input(sc).opt_input(zp).int("axis", axis).tag(tg.into()).combo(t)
+            c.input(x).input(sc).opt_input(zp).int("axis", axis).tag(tg.into()).combo(t)
+        }
+        "DynamicQuantizeLinear" => {
+            // x in quarters; range chosen so that y_scale = (max - min) / 255 is 1/2, 1 or 2 (exact), values
+            // on the ties of x / y_scale; min / max possibly not straddling 0 (range is extended to 0)
+            let den = 4i64;
+            let scale4 = *r.pick(&[2i64, 4, 4, 8]); // y_scale * 4
+            let span = 255 * scale4; // (hi - lo) * 4
+            let lo = match r.below(4) {
+                0 => 0,
+                1 => -span,
+                _ => -(r.range(0, 255) * scale4),
+            };
+            let hi = lo + span;
+            let s = dims(r, 1, 3, 4, false);
+            let n = numel(&s);
+            let mut data: Vec<i64> = (0..n)
+                .map(|_| {
+                    let k = r.range(0, 2 * 255); // multiples of y_scale / 2 inside [lo, hi]
+                    lo + k * scale4 / 2
+                })
+                .collect();
+            // the extreme values must be present (0 is implied)
+            if lo < 0 {
+                let i = r.below(n);
+                data[i] = lo;
+            }
+            if hi > 0 && n >= 2 {
+                let mut i = r.below(n);
+                if data[i] == lo && lo < 0 {
+                    i = (i + 1) % n;
+                }
+                data[i] = hi;
+            } else if hi > 0 && lo == 0 {
+                data[0] = hi;
+            }
+            let exact_scale = scale4 % 4 == 0;
+            let nout = if exact_scale && r.chance(2, 3) { 3 } else { 1 };
+            c.input(T::new(s, Dt::F32, data).den(den)).int("_nout", Some(nout as i64)).nout(nout)
+                .tag(format!("scale={}/4,lo={},outputs={nout}", scale4, if lo == 0 { "0" } else if hi == 0 { "-span" } else { "mixed" }))
         }
         "Einsum" => {
             let dt = *r.pick(&[Dt::F32, Dt::F32, Dt::F32, Dt::I32]);
@@ -1646,11 +1786,25 @@ fn gen_case(op: &str, r: &mut Rng) -> Case {
             }
         }
     }
-    classify(&mut c);
+    finish_case(&mut c, r);
+    c
+}
+
+/// Common tail of every generated case: layout of input 0, signature class.
+fn finish_case(c: &mut Case, r: &mut Rng) {
+    // one case in five feeds input 0 as a non-contiguous (column-major) tensor
+    if let Some(Some(t)) = c.ins.first() {
+        if !c.init[0] && t.shape.len() >= 2 && t.data.len() >= 2 && r.chance(1, 5) {
+            c.view = true;
+        }
+    }
+    classify(c);
     if c.combo.is_empty() {
         c.combo = c.tag.clone();
     }
-    c
+    if c.view {
+        c.combo.push_str(",noncontiguous_input");
+    }
 }
 
 /// Coarse input/attribute class used in failure signatures (`tag`); the generator's fine
@@ -1678,7 +1832,13 @@ fn classify(c: &mut Case) {
         "Cast" => {
             let a = t(0).unwrap();
             if attr_int("to") == Some(onnx::BOOL as i64) {
-                Some(if a.data.iter().any(|v| *v != 0 && *v != 1) { "to_bool,values_not_0_1".into() } else { "to_bool,values_0_1".into() })
+                Some(if a.data.iter().any(|v| *v != 0 && v.abs() < a.den) {
+                    "to_bool,nonzero_fraction_below_one".into()
+                } else if a.data.iter().any(|v| *v != 0 && *v != 1) {
+                    "to_bool,values_not_0_1".into()
+                } else {
+                    "to_bool,values_0_1".into()
+                })
             } else {
                 None
             }
@@ -1786,6 +1946,274 @@ fn classify(c: &mut Case) {
     }
 }
 
+// ------------------------------------------------------------------ attribute grids
+//
+// For operators whose output depends on interacting shape-arithmetic attributes the independent random
+// draws above hit a given combination rarely. `grid_case` enumerates the FULL cross product of those
+// attributes over a small size grid (window operators: extent 1..8 x kernel 1..4 x stride 1..3 x
+// (pad_begin, pad_end) in 0..2 squared or an auto_pad mode x ceil_mode / dilation (x count_include_pad);
+// Slice: every start / end in -d-2..d+2 plus INT_MIN / INT_MAX x six steps; Pad: mode x extent x begin
+// x end incl. negative pads; Resize: extent x power-of-two factor x sizes|scales x 4 coordinate x 4
+// nearest modes; Split, Trilu, Range, TopK). `--grid N` runs all of a grid, or a seeded sample of N.
+
+fn grid_size(op: &str) -> usize {
+    match op {
+        "MaxPool" | "Conv" | "ConvInteger" | "ConvTranspose" => 8 * 4 * 3 * 12 * 2,
+        "AveragePool" => 8 * 4 * 3 * 12 * 2 * 2,
+        "Slice" => (0..=5usize).map(|d| (2 * d + 7) * (2 * d + 7) * 6).sum(),
+        "Pad" => 4 * 4 * 36,
+        "Resize" => 8 * 5 * 2 * 4 * 4,
+        "Split" => 9 * 4,
+        "Trilu" => 9 * 8 * 2,
+        "Range" => 5 * 11 * 6 * 2,
+        "TopK" => 14 * 2 * 4,
+        _ => 0,
+    }
+}
+
+/// Mixed-radix decoding helper.
+struct Digits(usize);
+impl Digits {
+    fn take(&mut self, radix: usize) -> usize {
+        let d = self.0 % radix;
+        self.0 /= radix;
+        d
+    }
+}
+
+fn grid_case(op: &str, idx: usize, r: &mut Rng) -> Option<Case> {
+    let c = Case::new(op);
+    let mut g = Digits(idx);
+    let mut c = match op {
+        "MaxPool" | "AveragePool" | "Conv" | "ConvInteger" | "ConvTranspose" => {
+            let inn = g.take(8) + 1;
+            let k = g.take(4) + 1;
+            let st = (g.take(3) + 1) as i64;
+            let padmode = g.take(12);
+            let flag = g.take(2);
+            let cip = if op == "AveragePool" { Some(g.take(2) as i64) } else { None };
+            let is_pool = op == "MaxPool" || op == "AveragePool";
+            let d: i64 = if is_pool { 1 } else { flag as i64 + 1 };
+            let dk = (k as i64 - 1) * d + 1;
+            let (auto, pb, pe): (&str, i64, i64) = match padmode {
+                0..=8 => ("", (padmode / 3) as i64, (padmode % 3) as i64),
+                9 => ("SAME_UPPER", 0, 0),
+                10 => ("SAME_LOWER", 0, 0),
+                _ => ("VALID", 0, 0),
+            };
+            if (inn as i64) + pb + pe < dk {
+                return None; // the kernel never fits
+            }
+            if is_pool && (pb >= dk || pe >= dk) {
+                return None; // pooling pads must be smaller than the kernel
+            }
+            if op == "ConvTranspose" && auto.starts_with("SAME") {
+                return None; // not modelled
+            }
+            // optionally a second, trivial spatial axis; the grid axis is the first or the last one
+            let two_d = r.chance(1, 2);
+            let grid_first = r.chance(1, 2);
+            let (in_o, k_o) = (r.range(1, 3) as usize, 1usize);
+            let k_o = if in_o >= 2 && r.chance(1, 2) { 2 } else { k_o };
+            let put = |a: i64, o: i64| -> Vec<i64> { if !two_d { vec![a] } else if grid_first { vec![a, o] } else { vec![o, a] } };
+            let ins: Vec<usize> = put(inn as i64, in_o as i64).iter().map(|v| *v as usize).collect();
+            let ks = put(k as i64, k_o as i64);
+            let strides = put(st, 1);
+            let dil = put(d, 1);
+            let pads: Vec<i64> = [put(pb, 0), put(pe, 0)].concat();
+            let explicit = auto.is_empty();
+            let pads_attr = if explicit && (pb != 0 || pe != 0 || r.chance(1, 2)) { Some(AV::Ints(pads)) } else { None };
+            let auto_attr = if explicit { if r.chance(1, 4) { Some(AV::Str("NOTSET".into())) } else { None } } else { Some(AV::Str(auto.into())) };
+            let padclass = if !explicit { auto } else if pb == 0 && pe == 0 { "nopad" } else if pb == pe { "sym" } else if pb > pe { "begin>end" } else { "begin<end" };
+            let tag = format!("auto_pad={}", if explicit { "NOTSET" } else { auto });
+            let nsp = ins.len();
+            if is_pool {
+                let xs = [vec![1usize, r.range(1, 2) as usize], ins].concat();
+                let mut x = tensor(r, &xs, Dt::F32, -9, 9);
+                let mut c = c;
+                if op == "AveragePool" {
+                    x.data.iter_mut().for_each(|v| *v *= 2520);
+                    c = c.int("count_include_pad", cip);
+                }
+                c.input(x).attr("auto_pad", auto_attr).int("ceil_mode", Some(flag as i64)).attr("dilations", None)
+                    .attr("kernel_shape", Some(AV::Ints(ks))).attr("pads", pads_attr).attr("strides", Some(AV::Ints(strides)))
+                    .int("storage_order", None).tag(tag)
+                    .combo(format!("grid,{nsp}d,pads={padclass},stride={st},ceil={flag}{}", cip.map(|c| format!(",count_include_pad={c}")).unwrap_or_default()))
+            } else {
+                let (cg, mg) = (r.range(1, 2) as usize, r.range(1, 2) as usize);
+                let dil_attr = if d > 1 || r.chance(1, 2) { Some(AV::Ints(dil)) } else { None };
+                let combo = format!("grid,{nsp}d,pads={padclass},stride={st},dilation={d}");
+                let kss: Vec<usize> = ks.iter().map(|v| *v as usize).collect();
+                let xs = [vec![1usize, cg], ins].concat();
+                let c = match op {
+                    "ConvTranspose" => {
+                        let ws = [vec![cg, mg], kss].concat();
+                        let opad: Option<Vec<i64>> = if r.chance(1, 3) { Some(put(r.range(0, (st.max(d) - 1).max(0)), 0)) } else { None };
+                        let bias = r.chance(1, 2).then(|| tensor(r, &[mg], Dt::F32, -5, 5));
+                        c.input(tensor(r, &xs, Dt::F32, -4, 4)).input(tensor(r, &ws, Dt::F32, -3, 3)).opt_input(bias)
+                            .attr("output_padding", opad.map(AV::Ints))
+                    }
+                    "Conv" => {
+                        let ws = [vec![mg, cg], kss].concat();
+                        let bias = r.chance(1, 2).then(|| tensor(r, &[mg], Dt::F32, -5, 5));
+                        c.input(tensor(r, &xs, Dt::F32, -4, 4)).input(tensor(r, &ws, Dt::F32, -3, 3)).opt_input(bias)
+                    }
+                    _ => {
+                        let ws = [vec![mg, cg], kss].concat();
+                        let (dx, dw) = (*r.pick(&[Dt::U8, Dt::U8, Dt::I8]), *r.pick(&[Dt::U8, Dt::I8, Dt::I8]));
+                        let xz = r.chance(2, 3).then(|| tensor(r, &[], dx, -3, 9));
+                        let wz = if xz.is_some() && r.chance(1, 2) { Some(tensor(r, &[], dw, -3, 5)) } else { None };
+                        c.input(tensor(r, &xs, dx, -9, 9)).input(tensor(r, &ws, dw, -5, 5)).opt_input(xz).opt_input(wz)
+                    }
+                };
+                c.attr("auto_pad", auto_attr).attr("dilations", dil_attr).int("group", None)
+                    .attr("kernel_shape", Some(AV::Ints(ks))).attr("pads", pads_attr).attr("strides", Some(AV::Ints(strides)))
+                    .tag(tag).combo(combo)
+            }
+        }
+        "Slice" => {
+            let mut d = 0usize;
+            let mut rest = idx;
+            loop {
+                let sz = (2 * d + 7) * (2 * d + 7) * 6;
+                if rest < sz {
+                    break;
+                }
+                rest -= sz;
+                d += 1;
+            }
+            let mut g = Digits(rest);
+            let nv = 2 * d + 7;
+            let val = |i: usize| -> i64 {
+                if i == nv - 2 { i32::MIN as i64 } else if i == nv - 1 { i32::MAX as i64 } else { i as i64 - d as i64 - 2 }
+            };
+            let (start, end) = (val(g.take(nv)), val(g.take(nv)));
+            let step = [1i64, 2, 3, -1, -2, -3][g.take(6)];
+            let dt = num_dt(r);
+            let (shape, ax): (Vec<usize>, usize) = match r.below(3) {
+                0 => (vec![d], 0),
+                1 => (vec![d, r.range(1, 3) as usize], 0),
+                _ => (vec![r.range(1, 3) as usize, d], 1),
+            };
+            let axis = maybe_neg(r, ax as i64, shape.len());
+            let has_axes = ax != 0 || r.chance(2, 3);
+            let has_steps = step != 1 || r.chance(1, 2);
+            c.input(tensor(r, &shape, dt, -9, 9)).input(T::i64s(vec![start])).input(T::i64s(vec![end]))
+                .opt_input((has_axes || has_steps).then(|| T::i64s(vec![if has_axes { axis } else { 0 }]).ot(idx_ot(r))))
+                .opt_input(has_steps.then(|| T::i64s(vec![step])))
+                .tag(String::new()).combo(format!("grid,step={step},dim={d}"))
+        }
+        "Pad" => {
+            let mode = ["constant", "reflect", "edge", "wrap"][g.take(4)];
+            let dim = g.take(4) as i64 + 1;
+            let pb = g.take(6) as i64 - 2;
+            let pe = g.take(6) as i64 - 2;
+            if mode != "constant" && (pb < 0 || pe < 0) {
+                return None;
+            }
+            if mode == "reflect" && (pb > dim - 1 || pe > dim - 1) {
+                return None;
+            }
+            if pb < -dim || pe < -dim || dim + pb + pe < 0 {
+                return None;
+            }
+            let dt = *r.pick(&[Dt::F32, Dt::F32, Dt::I32, Dt::I32, Dt::U8, Dt::I8]);
+            let two_d = r.chance(1, 2);
+            let shape: Vec<usize> = if two_d { vec![r.range(1, 3) as usize, dim as usize] } else { vec![dim as usize] };
+            let pads = if two_d { vec![0, pb, 0, pe] } else { vec![pb, pe] };
+            let cv = if mode == "constant" && r.chance(1, 2) { Some(T::scalar(dt, r.range(if dt == Dt::U8 { 0 } else { -5 }, 5))) } else { None };
+            let mode_attr = if mode == "constant" && r.chance(1, 2) { None } else { Some(AV::Str(mode.into())) };
+            c.input(tensor(r, &shape, dt, -9, 9)).input(T::i64s(pads)).opt_input(cv).opt_input(None).attr("mode", mode_attr)
+                .tag(format!("{},mode={mode},axes=false,neg={},cv=grid", dt.name(), pb < 0 || pe < 0)).combo(format!("grid,mode={mode},neg={}", pb < 0 || pe < 0))
+        }
+        "Resize" => {
+            let inn = g.take(8) + 1;
+            let q = [1i64, 2, 4, 8, 16][g.take(5)];
+            let use_sizes = g.take(2) == 0;
+            let cm = ["half_pixel", "pytorch_half_pixel", "asymmetric", "align_corners"][g.take(4)];
+            let nm = ["round_prefer_floor", "round_prefer_ceil", "floor", "ceil"][g.take(4)];
+            let out = inn as i64 * q / 4;
+            if out < 1 || (use_sizes && (inn as i64 * q) % 4 != 0) {
+                return None;
+            }
+            let last = r.chance(1, 2);
+            let xs: Vec<usize> = if last { vec![1, 1, 1, inn] } else { vec![1, 1, inn, 1] };
+            let qs: Vec<i64> = if last { vec![4, 4, 4, q] } else { vec![4, 4, q, 4] };
+            let (scales, sizes) = if use_sizes {
+                (None, Some(T::i64s(xs.iter().zip(&qs).map(|(d, q)| *d as i64 * q / 4).collect())))
+            } else {
+                (Some(T::new(vec![4], Dt::F32, qs).den(4)), None)
+            };
+            let cm_attr = if cm == "half_pixel" && r.chance(1, 3) { None } else { Some(AV::Str(cm.into())) };
+            let nm_attr = if nm == "round_prefer_floor" && r.chance(1, 3) { None } else { Some(AV::Str(nm.into())) };
+            c.input(tensor(r, &xs, Dt::F32, -9, 9)).opt_input(None).opt_input(scales).opt_input(sizes)
+                .attr("coordinate_transformation_mode", cm_attr).attr("nearest_mode", nm_attr).attr("mode", Some(AV::Str("nearest".into())))
+                .tag(format!("coord={cm},nearest={nm}")).combo(format!("grid,coord={cm},nearest={nm},{},factor={q}/4", if use_sizes { "sizes" } else { "scales" }))
+        }
+        "Split" => {
+            let dim = g.take(9);
+            let n = g.take(4) + 1;
+            let dt = any_dt(r);
+            let (shape, ax): (Vec<usize>, usize) = if r.chance(1, 2) { (vec![dim], 0) } else { (vec![r.range(1, 2) as usize, dim], 1) };
+            let axis = if ax == 0 && r.chance(1, 2) { None } else { Some(maybe_neg(r, ax as i64, shape.len())) };
+            c.input(tensor(r, &shape, dt, -9, 9)).opt_input(None).int("axis", axis).int("num_outputs", Some(n as i64)).nout(n)
+                .tag(format!("split=num_outputs,even={}", dim % n == 0)).combo(format!("grid,num_outputs={n},even={}", dim % n == 0))
+        }
+        "Trilu" => {
+            let (h, w) = (g.take(3) + 1, g.take(3) + 1);
+            let kk = g.take(8);
+            let upper = g.take(2) as i64;
+            let k = if kk == 7 { None } else { Some(T::scalar(Dt::I32, kk as i64 - 3).ot(onnx::INT64)) };
+            let dt = num_dt(r);
+            let shape: Vec<usize> = if r.chance(1, 3) { vec![r.range(1, 2) as usize, h, w] } else { vec![h, w] };
+            let t = format!("k={},upper={upper}", k.is_some());
+            c.input(tensor(r, &shape, dt, 1, 9)).opt_input(k).int("upper", Some(upper)).tag(t.clone()).combo(format!("grid,{t}"))
+        }
+        "Range" => {
+            let start = g.take(5) as i64 - 2;
+            let limit = start + g.take(11) as i64 - 5;
+            let delta = [1i64, 2, 3, -1, -2, -3][g.take(6)];
+            let dt = [Dt::F32, Dt::I32][g.take(2)];
+            let ot = if dt == Dt::I32 && r.chance(1, 2) { onnx::INT64 } else { dt.onnx() };
+            c.input(T::scalar(dt, start).ot(ot)).input(T::scalar(dt, limit).ot(ot)).input(T::scalar(dt, delta).ot(ot))
+                .tag(format!("{},delta={}", dt.name(), if delta < 0 { "neg" } else { "pos" })).combo(format!("grid,{},delta={delta}", dt.name()))
+        }
+        "TopK" => {
+            // (dim, k) with 0 <= k <= dim <= 4: 14 pairs
+            let pair = g.take(14);
+            let (mut dim, mut k, mut acc) = (1usize, 0usize, 0usize);
+            'outer: for d in 1..=4usize {
+                for kk in 0..=d {
+                    if acc == pair {
+                        dim = d;
+                        k = kk;
+                        break 'outer;
+                    }
+                    acc += 1;
+                }
+            }
+            let largest = g.take(2) as i64;
+            let variant = g.take(4);
+            let dt = *r.pick(&[Dt::F32, Dt::I32]);
+            let (shape, ax): (Vec<usize>, usize) = match variant {
+                0 => (vec![dim], 0),
+                1 => (vec![r.range(1, 3) as usize, dim], 1),
+                2 => (vec![dim, r.range(1, 3) as usize], 0),
+                _ => (vec![2, dim, 2], 1),
+            };
+            let axis = if ax + 1 == shape.len() && r.chance(1, 3) { None } else { Some(maybe_neg(r, ax as i64, shape.len())) };
+            // few distinct values: ties are the rule
+            c.input(tensor(r, &shape, dt, -1, 1)).input(T::i64s(vec![k as i64])).int("axis", axis).int("largest", Some(largest))
+                .int("sorted", if r.chance(1, 2) { Some(1) } else { None }).nout(2)
+                .tag(format!("{},largest={largest}", dt.name())).combo(format!("grid,largest={largest},k={k},dim={dim}"))
+        }
+        _ => return None,
+    };
+    c.vshape = r.chance(1, 3);
+    finish_case(&mut c, r);
+    Some(c)
+}
+
 fn fnv(s: &str) -> u64 {
     let mut h = 0xcbf29ce484222325u64;
     for b in s.bytes() {
@@ -1799,6 +2227,12 @@ pub fn main() {
     // VH_LOUD=1 keeps the default panic hook (message + location on stderr) for debugging
     if std::env::var_os("VH_LOUD").is_none() {
         quiet_panics();
+    }
+    if std::env::args().any(|a| a == "--list-grids") {
+        // operator:grid-size pairs (for load balancing in the engine)
+        let v: Vec<String> = OPS.iter().filter(|o| grid_size(o) > 0).map(|o| format!("{o}:{}", grid_size(o))).collect();
+        println!("{}", v.join(","));
+        return;
     }
     if std::env::args().any(|a| a == "--list") {
         println!("{}", OPS.join(","));
@@ -1829,6 +2263,7 @@ pub fn main() {
     let first_id = arg_usize("--first-id", 1);
     // --unique-tags: triage aid, every failing case gets its own signature (and is printed by TLC)
     let unique_tags = std::env::args().any(|a| a == "--unique-tags");
+    let grid_n = arg_usize("--grid", 0);
     let mut id = 0usize;
     for op in &ops {
         for j in 0..per {
@@ -1847,6 +2282,32 @@ pub fn main() {
             let mut ret = run_case(&c);
             ret["id"] = json!(id);
             trace.emit(ret);
+        }
+        // --grid N: the operator's attribute grid, completely if it has at most N points, else a seeded sample
+        let size = grid_size(op);
+        if grid_n > 0 && size > 0 {
+            let mut order: Vec<usize> = (0..size).collect();
+            if size > grid_n {
+                Rng::new(seed ^ fnv(op) ^ 0x6772_6964).shuffle(&mut order);
+                order.truncate(grid_n);
+                order.sort();
+            }
+            for gi in order {
+                let mut r = Rng::new(seed ^ fnv(op).wrapping_add(0x6772_6964_0000 + (gi as u64).wrapping_mul(0x9E3779B97F4A7C15)));
+                let Some(mut c) = grid_case(op, gi, &mut r) else { continue };
+                id += 1;
+                if id < first_id {
+                    continue;
+                }
+                if unique_tags {
+                    c.tag = format!("{}#{}", c.tag, id);
+                }
+                trace.emit(c.json(id));
+                trace.flush();
+                let mut ret = run_case(&c);
+                ret["id"] = json!(id);
+                trace.emit(ret);
+            }
         }
     }
     trace.flush();
